@@ -916,3 +916,223 @@ Proof.
       * destruct K as (K1 & K2). split; auto.
     + intros pr y. apply child_close; prj; auto.
 Qed.
+
+Lemma Live_run acts : forall st st',
+  Live st -> Safe st -> no_fault acts = true -> run acts st = Some st' -> Live st' /\ Safe st'.
+Proof.
+  induction acts as [|a acts IH]; cbn [run no_fault forallb]; intros st st' Hl Hs Hnf H.
+  - injection H as <-. auto.
+  - apply andb_true_iff in Hnf as (Ha & Hnf). apply negb_true_iff in Ha.
+    destruct (step st a) eqn:E; [|discriminate].
+    apply (IH s); eauto using Safe_step, Live_step.
+Qed.
+
+(** * Quiescence *)
+Lemma quiescent_link st d c :
+  quiescent st = true -> (d < ncell st)%nat -> cpar (cells st d) = Some c ->
+  let x := cells st d in let pc := cells st c in
+  (lsend x = true -> lseen x = cver pc /\ cclosed pc = false /\ lrecv x = true) /\
+  (lrecv x = true -> lchan x = [] /\ has_rx st d = true).
+Proof.
+  unfold quiescent. rewrite forallb_forall. intros Hq Hd Hp. specialize (Hq d).
+  assert (Hin : In d (seq 0 (ncell st))) by (apply in_seq; lia). apply Hq in Hin. clear Hq.
+  apply negb_true_iff in Hin. unfold fwd_enabled in Hin. rewrite Hp in Hin.
+  repeat (apply orb_false_iff in Hin; destruct Hin as (Hin & ?)).
+  cbn zeta. split.
+  - intros Hs. rewrite Hs in *. cbn [andb] in *.
+    destruct (N.eqb_spec (lseen (cells st d)) (cver (cells st c))); [|discriminate]. cbn [andb] in *.
+    apply negb_false_iff in H1. auto.
+  - intros Hr. rewrite Hr in *. cbn [andb] in *. apply negb_false_iff in H. split; auto.
+    destruct (lchan (cells st d)); auto. discriminate.
+Qed.
+
+Definition good (st : state) (d : nat) : Prop :=
+  d = root st \/ has_rx st d = true \/ lfin (cells st d) = true.
+
+Lemma synced_level st :
+  Live st -> Safe st -> quiescent st = true ->
+  forall n d, (d < ncell st)%nat -> (clevel (cells st d) - clevel (cells st (root st)) <= Z.of_nat n)%Z ->
+  good st d -> idx (cells st d) + 1 = len (sent st).
+Proof.
+  intros Hl Hs Hq. induction n as [|n IH]; intros d Hd Hlev Hg.
+  - (* level 0: only the root *)
+    destruct (cpar (cells st d)) as [c|] eqn:Ep.
+    + destruct (sf_link _ Hs _ _ Hd Ep) as (Hc & Hlv & _). pose proof (lv_level _ Hl _ Hc). lia.
+    + rewrite (lv_uniq _ Hl _ Hd Ep). apply (lv_top _ Hl).
+  - destruct (cpar (cells st d)) as [c|] eqn:Ep.
+    2: { rewrite (lv_uniq _ Hl _ Hd Ep). apply (lv_top _ Hl). }
+    destruct (sf_link _ Hs _ _ Hd Ep) as (Hc & Hlv & _).
+    pose proof (lv_link _ Hl _ _ Hd Ep) as LL.
+    destruct (quiescent_link _ _ _ Hq Hd Ep) as (Q1 & Q2). cbn zeta in *.
+    assert (Hup : good st c -> idx (cells st c) + 1 = len (sent st)).
+    { apply IH; auto. lia. }
+    assert (Hfin : lfin (cells st d) = true -> idx (cells st d) + 1 = len (sent st)).
+    { intros Hf. destruct (ll_fin _ _ _ LL Hf) as (_ & _ & _ & F4 & F5 & F6).
+      rewrite F5, (ll_taken _ _ _ LL F4). apply Hup. destruct F6 as [->|F6]; [left; auto|right; right; auto]. }
+    destruct Hg as [->|[Hrx|Hf]]; auto.
+    + destruct (lv_root _ Hl). congruence.
+    + destruct (has_rx_link_alive _ _ _ Hl Hd Ep Hrx) as [Hr|Hf]; auto.
+      destruct (Q2 Hr) as (Hch & _).
+      destruct (lsend (cells st d)) eqn:Hsd.
+      * destruct (Q1 eq_refl) as (Hseen & _ & _).
+        pose proof (ll_last _ _ _ LL Hr) as Hlast. rewrite Hch in Hlast. cbn in Hlast.
+        rewrite Hlast, (ll_taken _ _ _ LL Hseen). apply Hup.
+        right. left. apply has_rx_spec. right. exists d. auto.
+      * pose proof (ll_eofin _ _ _ LL Hr Hsd) as Hin. rewrite Hch in Hin. destruct Hin.
+Qed.
+
+Lemma nth_last (l : list N) x d : nth_error l (length l - 1) = Some x -> last l d = x.
+Proof.
+  destruct l as [|a l] using rev_ind; [discriminate|].
+  rewrite app_length, last_last. cbn [length]. rewrite nth_error_app2 by lia.
+  replace (length l + 1 - 1 - length l)%nat with 0%nat by lia. cbn. congruence.
+Qed.
+
+(** in a quiescent state reached without faults every cell that still has a receiver (a handle or
+    a forwarding task), or whose feed ended regularly, holds the value stored last *)
+Lemma synced st d :
+  Live st -> Safe st -> quiescent st = true -> (d < ncell st)%nat -> good st d ->
+  cval (cells st d) = latest st /\ cerr (cells st d) = false.
+Proof.
+  intros Hl Hs Hq Hd Hg. split; [|apply Live_cerr; auto].
+  pose proof (lv_level _ Hl _ Hd) as Hlev.
+  assert (Hi : idx (cells st d) + 1 = len (sent st)).
+  { apply (synced_level _ Hl Hs Hq (Z.to_nat (clevel (cells st d) - clevel (cells st (root st)))) d); auto. lia. }
+  destruct (sf_cell _ Hs _ Hd) as (Hv & _). unfold val_ok in Hv. unfold idx, latest, len in *.
+  destruct (cval (cells st d)) as (i, p). cbn [fst snd] in *. f_equal; [lia|].
+  symmetry. apply nth_last. rewrite <- Hv. f_equal. lia.
+Qed.
+
+Theorem latest_at_quiescence acts p st r :
+  run acts (init p) = Some st -> no_fault acts = true -> quiescent st = true ->
+  (r < nrcv st)%nat -> rlive (rcvs st r) = true ->
+  cval (cells st (rcell (rcvs st r))) = latest st /\ cerr (cells st (rcell (rcvs st r))) = false.
+Proof.
+  intros H Hnf Hq Hr Hlive.
+  destruct (Live_run _ _ _ (Live_init p) (Safe_init p) Hnf H) as (Hl & Hs).
+  destruct (sf_rcv _ Hs _ Hr) as (Hc & _).
+  apply synced; auto. right. left. apply has_rx_spec. left. exists r. auto.
+Qed.
+
+(** * Progress: a state that is not quiescent has an enabled forwarding step *)
+Lemma forallb_false {A} (f : A -> bool) l : forallb f l = false -> exists x, In x l /\ f x = false.
+Proof.
+  induction l as [|a l IH]; cbn [forallb]; [discriminate|].
+  destruct (f a) eqn:E; cbn [andb]; intros H.
+  - destruct (IH H) as (x & Hin & Hx). exists x. split; auto. now right.
+  - exists a. split; auto. now left.
+Qed.
+
+Lemma linked_intro st d c : (d < ncell st)%nat -> cpar (cells st d) = Some c -> linked st d = Some (cells st d, c).
+Proof. intros Hd Hp. unfold linked. destruct (Nat.ltb_spec d (ncell st)); [|lia]. now rewrite Hp. Qed.
+
+Lemma fwd_enabled_step st d :
+  (d < ncell st)%nat -> fwd_enabled st d = true ->
+  exists a st', is_fwd a = true /\ step st a = Some st'.
+Proof.
+  intros Hd H. unfold fwd_enabled in H. destruct (cpar (cells st d)) as [c|] eqn:Ep; [|discriminate].
+  pose proof (linked_intro _ _ _ Hd Ep) as Hlk.
+  repeat (apply orb_true_iff in H; destruct H as [H|H]).
+  - exists (FwdTake d). cbn [step is_fwd]. rewrite Hlk, H. eauto.
+  - exists (FwdEnd d). cbn [step is_fwd]. rewrite Hlk, H. eauto.
+  - exists (FwdStop d). cbn [step is_fwd]. rewrite Hlk, H. eauto.
+  - exists (FwdDeliver d). cbn [step is_fwd]. rewrite Hlk. apply andb_true_iff in H as (H1 & H2). rewrite H1.
+    destruct (lchan (cells st d)) as [|m l]; [discriminate|].
+    destruct m; [destruct (has_rx st d)|destruct (has_rx st d)|]; eauto.
+  - exists (RecvStop d). cbn [step is_fwd]. rewrite Hlk, H. eauto.
+Qed.
+
+Lemma not_quiescent_step st :
+  quiescent st = false -> exists a st', is_fwd a = true /\ step st a = Some st'.
+Proof.
+  unfold quiescent. intros H. apply forallb_false in H as (d & Hin & Hd).
+  apply in_seq in Hin. apply negb_false_iff in Hd. apply (fwd_enabled_step st d); auto. lia.
+Qed.
+
+(** if a cell that still has a receiver is behind, some forwarding task can take a step *)
+Theorem progress acts p st r :
+  run acts (init p) = Some st -> no_fault acts = true ->
+  (r < nrcv st)%nat -> rlive (rcvs st r) = true ->
+  cval (cells st (rcell (rcvs st r))) <> latest st ->
+  exists a st', is_fwd a = true /\ step st a = Some st'.
+Proof.
+  intros H Hnf Hr Hlive Hne. apply not_quiescent_step.
+  destruct (quiescent st) eqn:Hq; auto.
+  destruct (latest_at_quiescence _ _ _ _ H Hnf Hq Hr Hlive). contradiction.
+Qed.
+
+(** * Big steps are small steps *)
+Lemma try_step_sound st a : exists acts, run acts st = Some (try_step st a) /\ (is_fault a = false -> no_fault acts = true).
+Proof.
+  unfold try_step. destruct (step st a) eqn:E.
+  - exists [a]. cbn [run no_fault forallb]. rewrite E. split; auto. intros ->. reflexivity.
+  - exists (@nil action). split; auto.
+Qed.
+
+Lemma run_app a1 : forall a2 st st1, run a1 st = Some st1 -> run (a1 ++ a2) st = run a2 st1.
+Proof.
+  induction a1 as [|a a1 IH]; cbn [run app]; intros a2 st st1 H.
+  - now injection H as <-.
+  - destruct (step st a); [eauto|discriminate].
+Qed.
+
+Lemma no_fault_app a1 a2 : no_fault a1 = true -> no_fault a2 = true -> no_fault (a1 ++ a2) = true.
+Proof. unfold no_fault. rewrite forallb_app. intros -> ->. reflexivity. Qed.
+
+Lemma try_steps_sound l : forall st, no_fault l = true ->
+  exists acts, run acts st = Some (try_steps l st) /\ no_fault acts = true.
+Proof.
+  induction l as [|a l IH]; cbn [try_steps]; intros st Hnf.
+  - exists (@nil action). auto.
+  - cbn [no_fault forallb] in Hnf. apply andb_true_iff in Hnf as (Ha & Hnf). apply negb_true_iff in Ha.
+    destruct (try_step_sound st a) as (a1 & H1 & N1). destruct (IH (try_step st a) Hnf) as (a2 & H2 & N2).
+    exists (a1 ++ a2). split. rewrite (run_app _ _ _ _ H1). auto. apply no_fault_app; auto.
+Qed.
+
+Lemma pass_no_fault n : no_fault (pass_acts n) = true.
+Proof.
+  unfold pass_acts, no_fault. apply forallb_forall. intros a Hin. apply in_flat_map in Hin as (d & _ & Hin).
+  cbn in Hin. repeat (destruct Hin as [<-|Hin]; [reflexivity|]). destruct Hin.
+Qed.
+
+Lemma quiesce_sound fuel : forall st,
+  exists acts, run acts st = Some (quiesce fuel st) /\ no_fault acts = true.
+Proof.
+  induction fuel as [|f IH]; cbn [quiesce]; intros st.
+  - exists (@nil action). auto.
+  - destruct (quiescent st). exists (@nil action); auto.
+    destruct (try_steps_sound (pass_acts (ncell st)) st (pass_no_fault _)) as (a1 & H1 & N1).
+    destruct (IH (try_steps (pass_acts (ncell st)) st)) as (a2 & H2 & N2).
+    exists (a1 ++ a2). split. rewrite (run_app _ _ _ _ H1). auto. apply no_fault_app; auto.
+Qed.
+
+(** * The value sent immediately before the sender is dropped *)
+Lemma sent_frozen acts : forall st st', sender st = None -> run acts st = Some st' -> sender st' = None /\ sent st' = sent st.
+Proof.
+  induction acts as [|a acts IH]; cbn [run]; intros st st' Hn H.
+  - injection H as <-. auto.
+  - destruct (step st a) as [s|] eqn:E; [|discriminate].
+    assert (sender s = None /\ sent s = sent st) as (A & B).
+    { destruct a; cbn [step] in E; rewrite ?Hn in E; try discriminate; cases; prj; auto. }
+    destruct (IH _ _ A H) as (C & D). split; congruence.
+Qed.
+
+Theorem latest_after_drop acts1 acts2 p q st1 st r :
+  run acts1 (init p) = Some st1 -> send_ok st1 = true ->
+  run (Send q :: DropSender :: acts2) st1 = Some st ->
+  no_fault (acts1 ++ acts2) = true -> quiescent st = true ->
+  (r < nrcv st)%nat -> rlive (rcvs st r) = true ->
+  snd (cval (cells st (rcell (rcvs st r)))) = q /\ cerr (cells st (rcell (rcvs st r))) = false.
+Proof.
+  intros H1 Hok H2 Hnf Hq Hr Hlive.
+  assert (Hrun : run (acts1 ++ Send q :: DropSender :: acts2) (init p) = Some st).
+  { rewrite (run_app _ _ _ _ H1). exact H2. }
+  assert (Hnf' : no_fault (acts1 ++ Send q :: DropSender :: acts2) = true).
+  { unfold no_fault in *. rewrite forallb_app in *. apply andb_true_iff in Hnf as (-> & Hb). cbn. exact Hb. }
+  destruct (latest_at_quiescence _ _ _ _ Hrun Hnf' Hq Hr Hlive) as (Hv & He). split; auto.
+  rewrite Hv. unfold latest. cbn [snd].
+  cbn [run step] in H2. unfold send_ok in Hok. destruct (sender st1) as [c|] eqn:Es; [|discriminate].
+  rewrite Hok in H2. cbn [step] in H2. unfold do_send in H2 at 1. prj. rewrite Es in H2.
+  match type of H2 with run _ ?s = _ => destruct (sent_frozen acts2 s st eq_refl H2) as (_ & ->) end.
+  prj. apply last_last.
+Qed.
